@@ -48,15 +48,20 @@ LNest == Lam1("e", Meth(Meth(Evar, "jets", <<>>), "Select", <<Lam1("j", Meth(Nam
 LNestTyped == Lam1("e", Meth(Meth(Evar, "jets", <<>>), "Select", <<Lam1("j", Meth(Name("j"), "pt", <<IntC(1)>>))>>))
 DeriveOps == {<<"Select", LMet>>, <<"Where", LCut>>, <<"SelectMany", LJets>>, <<"Select", LNest>>}
 (* what the operator emits for a lambda on a stream of the given item type *)
-Emitted(lam, inType) == IF lam = LNest /\ inType = "Evt" THEN LNestTyped ELSE lam
+(* on a typed dataset Evt.met(a = 4) gets its default filled in, also below the top of the body *)
+LMetTyped == Lam1("e", Meth(Evar, "met", <<IntC(4)>>))
+LCutTyped == Lam1("e", Cmp(">", Meth(Evar, "met", <<IntC(4)>>), IntC(1)))
+Emitted(lam, inType) == IF inType # "Evt" THEN lam
+                        ELSE CASE lam = LNest -> LNestTyped [] lam = LMet -> LMetTyped
+                               [] lam = LCut -> LCutTyped [] OTHER -> lam
 MDEmpty == Dct(<<>>)
 MDOne   == Dct(<<StrC("m"), IntC(1)>>)
 MDs     == {MDEmpty, MDOne}
 Keys    == {"a", "b"}
-Vals    == {1, 2}
+Vals    == {1, 2, 3}      \* 3 is rendered as the falsy value 0 (so that "set to something falsy" is covered)
 Titles  == IF ChainOnly THEN {""} ELSE {"t1", ""}
 QKeys   == IF ChainOnly THEN {"a"} ELSE Keys           \* keys QMetaData calls may set
-QVals   == IF ChainOnly THEN {1} ELSE Vals
+QVals   == IF ChainOnly THEN {1, 3} ELSE Vals
 Ovrs    == IF ChainOnly THEN {FALSE} ELSE BOOLEAN
 Newest(s) == ~ChainOnly \/ s = Len(streams)
 Cols    == Lst(<<StrC("c")>>)
